@@ -52,7 +52,8 @@ def run_case(ctx, name, obj, cfg):
         stem = in_path.stem
         arg, dest = output_arg(cfg["output"], sb, stem)
         if cfg["dest_exists"] and dest.parent.is_dir():
-            dest.write_bytes(OLD)
+            # sometimes an earlier, much larger file is in the way: what is written must replace it, not be laid over it
+            dest.write_bytes(OLD * 40000 if cfg.get("old_big") else OLD)
         (w / "bystander.txt").write_bytes(b"x")
         before = sb.snapshot()
         in_arg = cfg["input_name"] if cfg["input_dir"] == "cwd" else str(in_path)
@@ -218,6 +219,7 @@ def run(ctx):
     for i, (name, obj) in enumerate(objects):
         cfg = dict(output=OUTPUTS[i % len(OUTPUTS)] if i < 40 else r.choice(OUTPUTS), verbosity=i % 3, dest_exists=(i % 2 == 0),
                    input_name=INPUT_NAMES[i % len(INPUT_NAMES)], input_dir="cwd" if i % 4 else "elsewhere")
+        cfg["old_big"] = cfg["dest_exists"] and i % 4 == 0
         if i % 5 == 3 or name.startswith("after-earlier-call-"):
             earlier = str(Path_(i))
             pick = EARLIER_CALLS[int(name.rsplit("-", 1)[1])] if name.startswith("after-earlier-call-") else r.choice(EARLIER_CALLS)
